@@ -40,10 +40,19 @@ func newSyntaxError(err SyntaxError) *Node {
 
 func (self *Parser) syntaxError(err types.ParsingError) SyntaxError {
 	return SyntaxError{
-		Pos:  self.p,
+		Pos:  self.errorPos(),
 		Src:  self.s,
 		Code: err,
 	}
+}
+
+// errorPos is the read position clamped to the source: the native scanners
+// may leave it a few bytes past the end when they run out of input.
+func (self *Parser) errorPos() int {
+	if self.p > len(self.s) {
+		return len(self.s)
+	}
+	return self.p
 }
 
 func unwrapError(err error) *Node {
